@@ -148,7 +148,7 @@ def write_nt(rows, flags=frozenset(), quads=False):
 TTL_FLAGS = ["single-quote", "long-quote", "long-single-quote", "uchar", "raw", "prefix", "sparql-prefix", "empty-prefix", "base", "sparql-base",
              "relative", "predicate-list", "object-list", "anon", "collection", "numeric", "a", "comments", "tight", "newlines", "bnode-labels",
              "lang-case", "pn-local-escape", "semicolons", "nested-anon", "odd-prefix", "redefine", "dot-relative", "keyword-case", "no-final-eol", "crlf",
-             "file-base", "trig-graph-keyword", "trig-bare-default", "trig-no-final-dot", "trig-split-graph"]
+             "file-base", "mid-redeclare", "trig-graph-keyword", "trig-bare-default", "trig-no-final-dot", "trig-split-graph"]
 
 PN_LOCAL_OK = re.compile(r"^[A-Za-z_][A-Za-z0-9_\-]*$")
 PN_LOCAL_ESC = set("_~.-!$&'()*+,;=/?#@%")
@@ -176,6 +176,9 @@ class TurtleWriter:
             self.prefix = ""
         if "odd-prefix" in flags and self.prefix != "":
             self.prefix = "e.x-1\u00b7y"  # PN_PREFIX ::= PN_CHARS_BASE ((PN_CHARS | '.')* PN_CHARS)?
+        self.ns = EX  # the namespace the prefix currently stands for ("mid-redeclare" changes it half way through the document)
+        if "mid-redeclare" in flags and self.prefix is None:
+            self.prefix = "ex"
         self.base = EX if ("base" in flags or "sparql-base" in flags or "relative" in flags or "dot-relative" in flags) else None
         if "file-base" in flags:
             self.base = BASEF
@@ -183,8 +186,8 @@ class TurtleWriter:
     def iri(self, iri, predicate=False):
         if predicate and "a" in self.flags and iri == RDF + "type":
             return "a"
-        if self.prefix is not None and iri.startswith(EX):
-            local = iri[len(EX):]
+        if self.prefix is not None and iri.startswith(self.ns):
+            local = iri[len(self.ns):]
             if PN_LOCAL_OK.match(local):
                 return "%s:%s" % (self.prefix, local)
             if "pn-local-escape" in self.flags and local and all(c.isalnum() or c in PN_LOCAL_ESC for c in local) and not local[0] in "-.":
@@ -236,8 +239,12 @@ class TurtleWriter:
         if self.prefix is not None:
             if "redefine" in self.flags:  # a later declaration of the same prefix replaces the earlier one
                 out.append("@prefix %s: <http://wrong.invalid/> ." % self.prefix)
-            out.append(("prefix %s: <%s>" if kc else "PREFIX %s: <%s>") % (self.prefix, EX) if "sparql-prefix" in self.flags else "@prefix %s: <%s> ." % (self.prefix, EX))
+            out.append(self.prefix_decl(EX))
         return out
+
+    def prefix_decl(self, ns):
+        kc = "keyword-case" in self.flags
+        return ("prefix %s: <%s>" if kc else "PREFIX %s: <%s>") % (self.prefix, ns) if "sparql-prefix" in self.flags else "@prefix %s: <%s> ." % (self.prefix, ns)
 
     def triples_block(self, triples, protected=frozenset()):
         """triples: set of (s, p, o) keys. Returns list of statement strings.
@@ -392,9 +399,26 @@ def _finish(lines, rows, flags):
     return doc
 
 
+NS2 = EX + "dir/"
+
+
 def write_turtle(rows, flags=frozenset()):
     w = TurtleWriter(flags)
-    body = w.triples_block({r[:3] for r in rows})
+    triples = {r[:3] for r in rows}
+    if "mid-redeclare" in flags:
+        # the prefix is declared, used, declared again for another namespace and used again (the same prefixed name then means another IRI)
+        def in_ns2(x):
+            return x[0] == "I" and x[1].startswith(NS2) and PN_LOCAL_OK.match(x[1][len(NS2):])
+        part2 = {t for t in triples if any(in_ns2(x) for x in t)}
+        part1 = triples - part2
+        if part1 and part2:
+            shared = {x for t in part1 for x in (t[0], t[2]) if is_b(x)} & {x for t in part2 for x in (t[0], t[2]) if is_b(x)}
+            body = w.triples_block(part1, frozenset(shared))
+            w.ns = NS2
+            body += [w.prefix_decl(NS2)] + w.triples_block(part2, frozenset(shared))
+            w.ns = EX
+            return _finish(w.header() + body, rows, flags)
+    body = w.triples_block(triples)
     return _finish(w.header() + body, rows, flags)
 
 
